@@ -85,6 +85,7 @@ type jLsEv struct {
 	Ups     []jUp      `json:"ups"`
 	N       int        `json:"n"`
 	Idx     uint64     `json:"idx"`
+	Val     uint64     `json:"val"`
 	Res     string     `json:"res"`
 	Crashed bool       `json:"crashed"`
 	At      int64      `json:"at"`
@@ -541,6 +542,77 @@ func (s *lsSim) save(crashAt int64) {
 	}
 }
 
+// importSnap: ILogDB.ImportSnapshot as tools.ImportSnapshot uses it (the store is opened for the import and
+// closed afterwards). Everything the replica had is replaced by the imported snapshot record, the hard state
+// (term of the snapshot, its index as commit index) and an empty log that starts behind the snapshot.
+func (s *lsSim) importSnap(k int) {
+	n := s.nodes[k]
+	lo := n.ss
+	if lo == 0 {
+		lo = 1
+	}
+	idx := lo + uint64(s.rng.Intn(int(n.last+4-lo)))
+	n.lastTerm++
+	term := n.lastTerm
+	ss := pb.Snapshot{ShardID: n.Shard, Index: idx, Term: term, Type: pb.RegularStateMachine}
+	crashAt := int64(0)
+	if s.crashMode && s.rng.Intn(2) == 0 {
+		crashAt = int64(1 + s.rng.Intn(40))
+		atomic.StoreInt64(&s.inj.n, 0)
+		s.inj.at = crashAt
+	}
+	res := "ok"
+	func() {
+		defer func() {
+			if r := recover(); r != nil {
+				res = "panic"
+				time.Sleep(30 * time.Millisecond)
+			}
+		}()
+		if err := s.db.ImportSnapshot(ss, n.Replica); err != nil {
+			res = "error"
+		}
+	}()
+	fired := crashAt != 0 && atomic.LoadInt32(&s.inj.fired) == 1
+	s.inj.at = 0
+	func() {
+		defer func() { recover() }()
+		s.db.Close()
+	}()
+	pl := fired || (s.crashMode && s.rng.Intn(2) == 0)
+	if pl {
+		s.mem.ResetToSyncedState()
+	}
+	s.mem.SetIgnoreSyncs(false)
+	atomic.StoreInt32(&s.inj.fired, 0)
+	s.emit(jLsEv{Op: "Import", N: k, Idx: idx, Val: term, Res: res, Crashed: fired})
+	s.open()
+	// nothing at or below the imported snapshot index is ever asked for again (the log reader starts there):
+	// the queries keep to the range that is meaningful whether or not the import is visible
+	oldRm, oldLast := n.rm, n.last
+	if idx > n.rm {
+		n.rm = idx
+	}
+	if idx > n.last {
+		n.last = idx
+	}
+	ps := s.panels([]int{k})
+	n.rm, n.last = oldRm, oldLast
+	// the import may be visible or not when power was lost inside it; afterwards the driver continues from
+	// what the store holds
+	s.emit(jLsEv{Op: "Imported", PL: pl, Panels: ps})
+	for _, p := range ps {
+		if p.RsErr != "" {
+			*n = lsNode{Shard: n.Shard, Replica: n.Replica, lastTerm: n.lastTerm, terms: map[uint64]uint64{}}
+			continue
+		}
+		if p.Ss == idx && p.St[0] == term && p.Count == 0 {
+			*n = lsNode{Shard: n.Shard, Replica: n.Replica, lastTerm: term, terms: map[uint64]uint64{}, hasState: true,
+				term: term, vote: 0, commit: idx, last: idx, floor: idx, ss: idx, rm: idx}
+		}
+	}
+}
+
 // saveFsError: one save of one replica during which a single write or fsync of the file system
 // fails (no power loss). The save must report the failure (error or panic) or be completely
 // there: success with data missing is the violation. After a reported failure the store is
@@ -702,6 +774,10 @@ func (s *lsSim) run(steps int) {
 				*n = lsNode{Shard: n.Shard, Replica: n.Replica, lastTerm: 1, terms: map[uint64]uint64{}}
 				s.emit(jLsEv{Op: "RemoveNode", N: k, Panels: s.panels([]int{k})})
 			}
+		case c < 87 && n.hasState && (s.flavour == "tan" || s.flavour == "plain" || s.flavour == "batched") && os.Getenv("VERIF_LS_NOIMPORT") == "":
+			// the repair tool: ImportSnapshot on an opened store, then Close (tools.ImportSnapshot); in crash
+			// mode the machine may lose power at a file-system operation of the import or right after the Close
+			s.importSnap(k)
 		case c < 93:
 			if err := s.db.Close(); err != nil {
 				panic(err)
